@@ -14,6 +14,9 @@ type PropSpec struct {
 	Outside     []string
 	Assumptions []string
 	Explanation string
+	// AssertPrefix: only assertions whose id starts with one of these belong to this property
+	// (harnesses are shared between properties); panics always count.
+	AssertPrefix []string
 }
 
 var props = map[string]*PropSpec{}
@@ -119,5 +122,44 @@ func init() {
 		Outside:     []string{"more than 5 seats; n=5 without the sortedness assumption; amounts >= 2^40", "settlement reached through real play (covered by the engine step harnesses feeding the same functions)", "PotResult.Winners[].Withdraw is not used as an observable (see DESIGN §4 C02)"},
 		Assumptions: append([]string{"non-folded strengths are positive (C03 asserts this of the evaluator)", "sort.Slice on <= 12 elements is the stdlib insertion sort (modelled)"}, commonAssumptions...),
 		Explanation: "game.updatePots + game.CalculateGameResults + pot + settlement packages executed symbolically on symbolic contributions/strengths; the layer oracle is written from the rules and asserted through Result.Players[].Changed",
+	})
+
+	register(&PropSpec{
+		ID:   "C13",
+		Pkgs: []string{""},
+		Jobs: func(tier string) []sym.Job {
+			var js []sym.Job
+			maxN, maxAllDealers := 4, 3
+			if tier == "thorough" {
+				maxN, maxAllDealers = 5, 5
+			}
+			for n := 2; n <= maxN; n++ {
+				for d := 0; d < n; d++ {
+					if n > maxAllDealers && d > 0 {
+						continue
+					}
+					for layout := 0; layout <= 2; layout++ {
+						if n == 2 && layout == 1 {
+							continue
+						}
+						for ante := 0; ante <= 1; ante++ {
+							js = append(js, sym.Job{Pkg: "", Harness: "Harness_C13", Args: []int{n, d, layout, ante}})
+						}
+					}
+				}
+			}
+			return js
+		},
+		AssertPrefix: []string{"C13."},
+		Covers:       func(tier string) []string { return []string{"C13.blinds-posted", "C13.short-big-blind"} },
+		Bounds: func(tier string) []string {
+			if tier == "thorough" {
+				return []string{"n in 2..5 seats, every dealer seat", "layouts: dealer/sb/bb (heads-up: dealer is sb), dead small blind, dealer-blind stakes", "ante, blinds, dealer blind, bankrolls: every value in [0,2^40) (bankrolls > 0)", "operations: Start, ReadyForAll, PayAnte, PayBlinds on a standard 52-card deck in builder order (shuffle = identity)"}
+			}
+			return []string{"n in 2..3 seats with every dealer seat, n=4 with dealer at seat 0", "layouts: dealer/sb/bb (heads-up: dealer is sb), dead small blind, dealer-blind stakes", "ante, blinds, dealer blind, bankrolls: every value in [0,2^40) (bankrolls > 0)", "operations: Start, ReadyForAll, PayAnte, PayBlinds on a standard 52-card deck in builder order (shuffle = identity)"}
+		},
+		Outside:     []string{"more than 5 seats", "amounts >= 2^40", "heads-up with both a small blind and a dealer blind configured (the statement does not say which the dealer posts)", "Player.Pay as an alternative way of posting (not used by the table layer)"},
+		Assumptions: append([]string{"math/rand.Shuffle modelled as the identity permutation here (C14 covers shuffling)", "time.Now modelled as an arbitrary int64"}, commonAssumptions...),
+		Explanation: "bounded unrolling of the real engine from Start() through the forced bets with all stakes and bankrolls symbolic",
 	})
 }
